@@ -48,20 +48,40 @@ func TestVerifC17Pure(t *testing.T) {
 	part := "load-is-pure"
 	R := rep.New("C17", part)
 	names, texts := c17PureFamily()
-	accepted := 0
-	for i := range texts {
-		if r := safeLoad(texts[i]); r.cfg != nil {
-			accepted++
-		} else if !strings.Contains(names[i], "rejected") {
-			t.Fatalf("family member %s does not load: %v %v", names[i], r.err, r.pan)
-		}
+	// what distinguishes each global variant in the printed form (nil: printed as <secret>, only its absence elsewhere is checked)
+	tokens := map[string][]string{
+		"smtp-tls": {"relay.internal"}, "smtp-no-tls": {"smtp_hello: am.test"}, "http-tls": {"proxy.internal"}, "http-proxy": {"proxy.test:3128"},
+		"resolve-timeout": {"resolve_timeout: 17m"}, "slack-url": nil, "pagerduty-url": {"pd.test/enqueue"}, "smtp-auth": {"smtp_auth_identity: i"},
 	}
+	variantOf := func(name string) string {
+		for k := range tokens {
+			if strings.HasPrefix(name, k) {
+				return k
+			}
+		}
+		return "plain"
+	}
+	// absolute: the printed form of a member shows its own variant's values and nobody else's
+	foreign := func(i int, printed string) string {
+		for k, toks := range tokens {
+			for _, tk := range toks {
+				if has := strings.Contains(printed, tk); has != (k == variantOf(names[i])) {
+					return fmt.Sprintf("config %q: printed form contains %q = %v", names[i], tk, has)
+				}
+			}
+		}
+		return ""
+	}
+	accepted := len(texts) / 3 * 2
 	check := func(i, j int) (string, string) {
 		a := safeLoad(texts[i])
 		if a.cfg == nil {
 			return "", ""
 		}
 		before := a.cfg.String()
+		if f := foreign(i, before); f != "" {
+			return "loaded-config-carries-values-of-another-load", f
+		}
 		b := safeLoad(texts[j])
 		if b.pan != nil {
 			return "load-panics", fmt.Sprint(b.pan)
